@@ -56,3 +56,4 @@ package routing
 //@ ensures c.$emitted == old(c.$emitted) || c.$emitted == old(c.$emitted) + 1
 //@ ensures c.$emitted == old(c.$emitted) + 1 ==> c.$lastOut != nil && c.$lastOut.PrimaryBlock.Destination == old(descriptor.bndl.PrimaryBlock.ReportTo)
 //@ ensures c.$emitted == old(c.$emitted) + 1 ==> uint64(c.$lastOut.PrimaryBlock.BundleControlFlags) == 0x02
+//@ cover c.$emitted == old(c.$emitted) + 1
